@@ -134,7 +134,6 @@ NUM = {"zero": 0.0, "one": 1.0, "tenth": 0.1, "half": 0.5, "ordinary": 12.345678
 GEO_REF = {"None": None, "utm": "+proj=utm +zone=32 +ellps=WGS84"}
 AUTHOR, AFFILIATION, SOURCE = "crv-author", "crv-affiliation", "crv-source"
 COMPONENTS = ["obstacle", "planning", "lanelet", "sign", "light", "intersection", "header", "numbers"]
-MAX_CLAUSE = 52          # TLC wraps printed tuples beyond 80 columns and the REJECT parser is line based
 _TABLE_FILE = os.path.join(tlc.OUT, "gen", "codec_tables.json")
 _tables = None
 
@@ -386,7 +385,10 @@ def g_lanelet(la):
             skw["traffic_sign_ref"] = set(s["sref"])
         if not s["g"]["lrefNone"]:
             skw["traffic_light_ref"] = set(s["lref"])
-        kw["stop_line"] = StopLine(right[-1].copy(), left[-1].copy(), LineMarking[s["lm"]], **skw)
+        if s["pts"]:
+            kw["stop_line"] = StopLine(right[-1].copy(), left[-1].copy(), LineMarking[s["lm"]], **skw)
+        else:                                      # no points: "at the end of the lanelet" (2020a format)
+            kw["stop_line"] = StopLine(None, None, LineMarking[s["lm"]], **skw)
     if la["types"]:
         kw["lanelet_type"] = {LaneletType[t] for t in la["types"]}
     if la["uow"]:
@@ -712,8 +714,11 @@ def a_lanelet(L, la):
     sl = la.stop_line
     L.lf(K, Y, "stopLine.present", "0" if sl is None else "1")
     if sl is not None:
-        L.xy(K, Y + "/s", "stopLine", sl.start)
-        L.xy(K, Y + "/e", "stopLine", sl.end)
+        has = sl.start is not None and sl.end is not None
+        L.lf(K, Y, "stopLine.hasPoints", "1" if has else "0")
+        if has:
+            L.xy(K, Y + "/s", "stopLine", sl.start)
+            L.xy(K, Y + "/e", "stopLine", sl.end)
         L.lf(K, Y, "stopLine.lineMarking", "None" if sl.line_marking is None else sl.line_marking.name)
         L.lf(K, Y, "stopLine.trafficSignRef", _idstr(sl.traffic_sign_ref))
         L.lf(K, Y, "stopLine.trafficSignRef.isNone", _is_none(sl.traffic_sign_ref))
@@ -877,13 +882,6 @@ def project(orig, back, d):
     return out
 
 
-def check_clause_lengths(leaves):
-    for K, Y, P, v in leaves:
-        n = len(K) + 1 + len(P) + (17 if (isinstance(v, Real) or str(v).startswith("re:") or v == "r") else 9)
-        if n > MAX_CLAUSE:
-            raise tlc.MachineryError("leaf path too long for a one-line TLC REJECT message (%d): %s.%s" % (n, K, P))
-
-
 # ======================================================================================================================
 # executing one case
 # ======================================================================================================================
@@ -970,8 +968,6 @@ def roundtrip_event(case, fmt):
     desc, d, comp = case["desc"], case["d"], case["comp"]
     r = roundtrip(desc, d, fmt)
     back = project(r["orig"], r["back"], d) if r["back"] is not None else []
-    check_clause_lengths(r["orig"])
-    check_clause_lengths(back)
     sig = fmt if not r["exc"] else "%s/%s" % (fmt, r["why"])      # the clause names the leaf; sig only the cause of a crash
     return {"op": "xml_roundtrip" if fmt == "xml" else "pb_roundtrip", "sig": sig, "d": d, "desc": desc,
             "orig": as_orig(r["orig"]), "back": back, "exc": r["exc"]}
@@ -998,12 +994,15 @@ def _parallel(jobs):
 
 
 def model_check(ctx, schema_only=False):
+    # the contract is not vacuous: the implementation models of two repaired defects must break Impl => Contract
+    _parallel([lambda: ctx.mc_expect("MC_Codec", "DEV_Codec_1.cfg", "LawImplConforms"),       # XML writer without <horn>
+               lambda: ctx.mc_expect("MC_Codec", "DEV_Codec_2.cfg", "LawImplConforms")])      # reader stops at first unset
     comps = COMPONENTS + ["mixed", "mixedx"]
     _parallel([(lambda c=c: ctx.mc("MC_Codec", "MC_Codec_%s.cfg" % c, coverage=False,
                                    extra=("-seed", str(ctx.seed + 1)))) for c in comps])
 
 
-def gen_cases(ctx, fmt):
+def gen_cases(ctx, fmt, quota=False):
     """All cases of the per-component GEN runs the spec declares expressible in `fmt`, plus the seeded mixed draw."""
     shutil.rmtree(os.path.join(tlc.OUT, "codec_tmp"), ignore_errors=True)       # leftovers of an interrupted run
     suffix = "_t" if ctx.thorough else ""
@@ -1022,6 +1021,10 @@ def gen_cases(ctx, fmt):
     check_tables(table, ctx.notes)
     total = len(cases)
     cases = [c for c in cases if c[fmt]]
+    if quota:          # cases that trigger a listed known finding only inside the small family the spec designates
+        n = len(cases)
+        cases = [c for c in cases if c["q"]]
+        ctx.extra["cases_outside_known_finding_quota"] = n - len(cases)
     ctx.extra["cases_generated"] = total
     ctx.extra["cases_expressible_in_" + fmt] = len(cases)
     by = {}
